@@ -24,7 +24,13 @@ import CopVerif.Gen.GaussTransform
     silently skipped, so the score matrix has `k < d` columns.  Then `multivariate_normal.pdf`
     computes `x - mean` by numpy broadcasting: `k = 1` is silently broadcast to `(z, …, z)`, any other
     `k ≠ d` raises `ValueError`; `k = 0` already fails in `np.column_stack` (`ValueError`);
-    `multivariate_normal.cdf` raises `ValueError` for every `k ≠ d`.
+    `multivariate_normal.cdf` raises `ValueError` for every `k ≠ d` and for an empty batch.
+  * **Near-singular stored correlation** (finding `cumulative_distribution:raises[near-singular
+    correlation]`): `probability_density` passes `allow_singular=True`, `cumulative_distribution`
+    does not, so for a stored correlation that scipy deems singular (`Corr.singular`) the CDF raises
+    `LinAlgError` (a `ValueError`) for EVERY query.  The flag of the cdf call is read from the source
+    (`Gen.GaussTransform.cdfAllowSingular`), so a repair that passes `allow_singular=True` is followed
+    by the model without edits.
   * An executable zero-mean MVN density (Cholesky, forward substitution) polymorphic in the numeric
     signature: run at `Float` against scipy on the real scores, reasoned about at `ℝ`.
 -/
@@ -70,17 +76,24 @@ inductive Term (α : Type) where
     `LOG`. -/
 inductive RTerm (α : Type) where
   | mvnpdf (allowSingular : Bool) (row : List (Term α))
-  | mvncdf (row : List (Term α))
+  | mvncdf (allowSingular : Bool) (row : List (Term α))
   | log (t : RTerm α)
   deriving Repr
 
+/-- what the glue (and scipy's argument checks) read of the stored correlation `self.correlation`:
+    its dimension, and scipy's verdict on it (`_PSD`: some eigenvalue `≤ 1e6·eps·max|eigenvalue|`, i.e.
+    "singular"; with `allow_singular=False` scipy then raises `LinAlgError`, a `ValueError`). -/
+structure Corr where
+  dim : Nat
+  singular : Bool
+  deriving Repr, DecidableEq
+
 /-- the fitted state that the three methods read. -/
-structure GModel (L α : Type) where
+structure GModel (L : Type) where
   fitted : Bool
   /-- `self.columns` (training order); `self.univariates[j]` is the symbol `CDF j`. -/
   cols : List L
-  /-- `self.correlation` (only its dimension matters to the glue). -/
-  corr : List (List α)
+  corr : Corr
 
 section
 variable {L α : Type} [DecidableEq L]
@@ -132,7 +145,7 @@ variable [Add α] [Sub α] [Mul α] [Div α] [Neg α] [NumFns α]
 
 /-- `model._transform_to_normal(X)` as a plan: the generated glue over `prims`, with
     `self.univariates = [CDF 0, CDF 1, …]`. -/
-def transformToNormal (m : GModel L α) (x : Container L α) : Except Err (Block (Term α)) :=
+def transformToNormal (m : GModel L) (x : Container L α) : Except Err (Block (Term α)) :=
   Gen.GaussTransform.transformToNormal prims m.cols (List.range m.cols.length) x
 
 /-- the plan term of one score: `NORMPPF (CLIP ε (1-ε) (CDF j x))`. -/
@@ -141,36 +154,42 @@ def scoreTerm (j : Nat) (x : α) : Term α :=
 
 /-- the plan of ONE row of a frame labelled `labels`: walk the training columns in training order,
     take the cell(s) carrying that label. -/
-def rowPlan (m : GModel L α) (labels : List L) (r : List α) : List (Term α) :=
+def rowPlan (m : GModel L) (labels : List L) (r : List α) : List (Term α) :=
   (m.cols.zip (List.range m.cols.length)).flatMap fun cj =>
     (pick labels cj.1 r).map (scoreTerm cj.2)
 
 /-- `check_fit`. -/
-def checkFit (m : GModel L α) : Except Err Unit := if m.fitted then .ok () else .error .notFitted
+def checkFit (m : GModel L) : Except Err Unit := if m.fitted then .ok () else .error .notFitted
 
 /-- `stats.multivariate_normal.pdf(scores, cov=Σ, allow_singular=…)` on an `n × k` score block for a
-    `d × d` Σ: numpy broadcasting of `x - mean` (see the header). -/
-def mvnPdfBatch (S : Block (Term α)) (corr : List (List α)) (allowSingular : Bool) :
+    `d × d` Σ: parameter check first (`singular` and not allowed ⇒ `LinAlgError`), then numpy
+    broadcasting of `x - mean` (see the header). -/
+def mvnPdfBatch (S : Block (Term α)) (corr : Corr) (allowSingular : Bool) :
     Except Err (List (RTerm α)) :=
-  if S.width = corr.length then .ok (S.rows.map (RTerm.mvnpdf allowSingular))
+  if corr.singular && !allowSingular then .error .valueError
+  else if S.width = corr.dim then .ok (S.rows.map (RTerm.mvnpdf allowSingular))
   else if S.width = 1 then
-    .ok (S.rows.map fun r => RTerm.mvnpdf allowSingular (r.flatMap fun t => List.replicate corr.length t))
+    .ok (S.rows.map fun r => RTerm.mvnpdf allowSingular (r.flatMap fun t => List.replicate corr.dim t))
   else .error .valueError
 
-/-- `stats.multivariate_normal.cdf(scores, cov=Σ)`: every `k ≠ d` raises. -/
-def mvnCdfBatch (S : Block (Term α)) (corr : List (List α)) : Except Err (List (RTerm α)) :=
-  if S.width = corr.length then .ok (S.rows.map RTerm.mvncdf) else .error .valueError
+/-- `stats.multivariate_normal.cdf(scores, cov=Σ, allow_singular=…)`: parameter check first; every
+    `k ≠ d` raises; an EMPTY batch raises too (`np.apply_along_axis` on zero rows: `ValueError`). -/
+def mvnCdfBatch (S : Block (Term α)) (corr : Corr) (allowSingular : Bool) : Except Err (List (RTerm α)) :=
+  if corr.singular && !allowSingular then .error .valueError
+  else if S.width = corr.dim then
+    (if S.rows.isEmpty then .error .valueError else .ok (S.rows.map (RTerm.mvncdf allowSingular)))
+  else .error .valueError
 
 /-- `model.probability_density(X)` as a plan (generated glue). -/
-def pdfPlan (m : GModel L α) (x : Container L α) : Except Err (List (RTerm α)) :=
+def pdfPlan (m : GModel L) (x : Container L α) : Except Err (List (RTerm α)) :=
   Gen.GaussTransform.probabilityDensity (checkFit m) (transformToNormal m) mvnPdfBatch m.corr x
 
 /-- `model.cumulative_distribution(X)` as a plan (generated glue). -/
-def cdfPlan (m : GModel L α) (x : Container L α) : Except Err (List (RTerm α)) :=
+def cdfPlan (m : GModel L) (x : Container L α) : Except Err (List (RTerm α)) :=
   Gen.GaussTransform.cumulativeDistribution (checkFit m) (transformToNormal m) mvnCdfBatch m.corr x
 
 /-- `model.log_probability_density(X)` as a plan (generated glue; `np.log` is element-wise). -/
-def logPdfPlan (m : GModel L α) (x : Container L α) : Except Err (List (RTerm α)) :=
+def logPdfPlan (m : GModel L) (x : Container L α) : Except Err (List (RTerm α)) :=
   Gen.GaussTransform.logProbabilityDensity (fun ys => ys.map RTerm.log) (pdfPlan m) x
 
 /-! ### interpretation of the external symbols -/
@@ -183,8 +202,8 @@ structure Ext (α : Type) where
   normppf : α → α
   /-- `x ↦ multivariate_normal.pdf(x, cov=Σ, allow_singular=b)` for the stored Σ -/
   mvnpdf : Bool → List α → α
-  /-- `x ↦ multivariate_normal.cdf(x, cov=Σ)` for the stored Σ -/
-  mvncdf : List α → α
+  /-- `x ↦ multivariate_normal.cdf(x, cov=Σ, allow_singular=b)` for the stored Σ -/
+  mvncdf : Bool → List α → α
 
 variable [LT α] [DecidableLT α]
 
@@ -199,20 +218,20 @@ def Term.eval (E : Ext α) : Term α → α
 
 def RTerm.eval (E : Ext α) : RTerm α → α
   | .mvnpdf b row => E.mvnpdf b (row.map (Term.eval E))
-  | .mvncdf row => E.mvncdf (row.map (Term.eval E))
+  | .mvncdf b row => E.mvncdf b (row.map (Term.eval E))
   | .log t => NumFns.log (t.eval E)
 
 /-- the score matrix (rows) under `E`. -/
-def scores (E : Ext α) (m : GModel L α) (x : Container L α) : Except Err (List (List α)) :=
+def scores (E : Ext α) (m : GModel L) (x : Container L α) : Except Err (List (List α)) :=
   (transformToNormal m x).map fun S => S.rows.map fun r => r.map (Term.eval E)
 
-def pdf (E : Ext α) (m : GModel L α) (x : Container L α) : Except Err (List α) :=
+def pdf (E : Ext α) (m : GModel L) (x : Container L α) : Except Err (List α) :=
   (pdfPlan m x).map fun ys => ys.map (RTerm.eval E)
 
-def cdf (E : Ext α) (m : GModel L α) (x : Container L α) : Except Err (List α) :=
+def cdf (E : Ext α) (m : GModel L) (x : Container L α) : Except Err (List α) :=
   (cdfPlan m x).map fun ys => ys.map (RTerm.eval E)
 
-def logPdf (E : Ext α) (m : GModel L α) (x : Container L α) : Except Err (List α) :=
+def logPdf (E : Ext α) (m : GModel L) (x : Container L α) : Except Err (List α) :=
   (logPdfPlan m x).map fun ys => ys.map (RTerm.eval E)
 
 end
